@@ -1031,8 +1031,122 @@ pub fn fam_carveout(r: &mut Rng) -> Vec<Prog> {
     }
 }
 
+/// H2: typed message passing under the simulator — typed receives with a handler block that
+/// dispatches on the message, self-sends, selects over several sources (an awaited process next to
+/// one that never finishes, a time-out), process handles passed to a function with a process-typed
+/// parameter. Scenarios are confluent: at most one source can ever be ready. A wrongly typed
+/// message is never *received* (the runtime re-checks message types), so a missing Send check shows
+/// as a hang, not as a stuck state; what the oracle sees here is the typing of received messages,
+/// awaited results and select results.
+pub fn fam_process(r: &mut Rng) -> Vec<Prog> {
+    let mut g = G::new(r);
+    let mty = match g.r.below(3) {
+        0 => g.leaf_ty(),
+        1 => g.tuple_ty(0),
+        _ => g.union_ty(0),
+    };
+    // what is sent: a value of the message type, or of a near miss (must be rejected at Send)
+    let sty = if g.r.chance(2, 3) { mty.clone() } else { near_miss(&mty, &mut g) };
+    g.feats.insert(if sty == mty { "process:exact-message".into() } else { "process:near-miss-message".into() });
+    let handler = match &mty {
+        GTy::Union(_) => g.dispatch_block(&mty, 1),
+        _ => {
+            let u = g.demanding_use(t("~"), &mty, 1);
+            cat(vec![t("{ W["), u, t("] }")])
+        }
+    };
+    let vals = g.values(&sty, 1);
+    let args = pick_args(g.r, vals, 3);
+    let shape = g.r.below(6);
+    let (defs, main): (Vec<(String, Node)>, Node) = match shape {
+        0 => {
+            g.feats.insert("process:typed-receive-handler".into());
+            (vec![("srv".into(), cat(vec![t(&format!("#[] {{ !#{} ", mty.param_src())), handler, t(" }")]))], t("p = @srv, {ARG} p, !p"))
+        }
+        1 => {
+            g.feats.insert("process:self-send".into());
+            (vec![("srv".into(), cat(vec![t(&format!("#[] {{ {{ARG}} ., !#{} ", mty.param_src())), handler, t(" }")]))], t("p = @srv, !p"))
+        }
+        2 => {
+            g.feats.insert("process:select-two-processes".into());
+            (
+                vec![
+                    ("srv".into(), cat(vec![t(&format!("#[] {{ !#{} ", mty.param_src())), handler, t(" }")])),
+                    ("idle".into(), t("#[] { !'bin }")),
+                ],
+                t("p = @srv, q = @idle, {ARG} p, ! [q, p]"),
+            )
+        }
+        3 => {
+            g.feats.insert("process:select-timeout".into());
+            (
+                vec![("idle".into(), t(&format!("#[] {{ !#{} }}", mty.param_src())))],
+                t("q = @idle, ! [q, 3] { | =[] => T0 | =m => M[m] }"),
+            )
+        }
+        4 => {
+            g.feats.insert("process:handle-as-argument".into());
+            (
+                vec![
+                    ("srv".into(), cat(vec![t(&format!("#[] {{ !#{} ", mty.param_src())), handler, t(" }")])),
+                    ("snd".into(), t(&format!("#[@{}, {}] {{ =[tgt, v] => v tgt, Ok }}", mty.src_n(true), sty.src_n(true)))),
+                ],
+                t("p = @srv, [&p, {ARG}] snd, !p"),
+            )
+        }
+        _ => {
+            g.feats.insert("process:filter-receive".into());
+            (
+                vec![("srv".into(), cat(vec![
+                    t(&format!("#[] {{ ! [#{} {{ Ok }}] ", mty.param_src())),
+                    handler,
+                    t(" }"),
+                ]))],
+                t("p = @srv, {ARG} p, !p"),
+            )
+        }
+    };
+    // the self-send shape puts {ARG} into a definition: render it there
+    let mut progs = vec![];
+    if shape == 1 {
+        for a in &args {
+            let defs2: Vec<(String, Node)> = defs
+                .iter()
+                .map(|(n, d)| {
+                    let mut sx = String::new();
+                    d.render(&Repair::default(), &mut sx);
+                    (n.clone(), t(&sx.replace("{ARG}", &a.src)))
+                })
+                .collect();
+            progs.push(Prog {
+                family: "process",
+                features: g.feats.clone(),
+                aliases: vec![],
+                guards: vec![],
+                defs: defs2,
+                main: main.clone(),
+                args: vec![Arg { src: String::new(), aligned_src: None, note: String::new() }],
+                generic_fn: None,
+                declared_ret: None,
+            });
+        }
+        return progs;
+    }
+    vec![Prog {
+        family: "process",
+        features: g.feats.clone(),
+        aliases: vec![],
+        guards: vec![],
+        defs,
+        main,
+        args,
+        generic_fn: None,
+        declared_ret: None,
+    }]
+}
+
 pub fn generate(r: &mut Rng) -> Vec<Prog> {
-    match r.below(34) {
+    match r.below(38) {
         0..=7 => fam_dispatch(r),
         8..=11 => fam_variable(r),
         12..=15 => fam_generic(r),
@@ -1042,6 +1156,7 @@ pub fn generate(r: &mut Rng) -> Vec<Prog> {
         23..=25 => fam_hof(r),
         26..=27 => fam_repeat(r),
         28..=29 => fam_spawn(r),
-        _ => fam_carveout(r),
+        30..=33 => fam_carveout(r),
+        _ => fam_process(r),
     }
 }
